@@ -25,6 +25,7 @@ def encVal : PyVal → String
   | .posInf => "p"
   | .obj c fs => "O" ++ c ++ "{" ++ encFields fs ++ "}"
   | .unbound => "?"
+  | .notImpl => "X"
 def encVals : List PyVal → String
   | [] => ""
   | [v] => encVal v
@@ -53,6 +54,7 @@ def parseVal : Nat → List Char → Option (PyVal × List Char)
     | 'F' :: r => some (.bool false, r)
     | 'm' :: r => some (.negInf, r)
     | 'p' :: r => some (.posInf, r)
+    | 'X' :: r => some (.notImpl, r)
     | 'i' :: r =>
       let d := r.takeWhile isPayload
       (decInt d).map fun i => (.int i, r.dropWhile isPayload)
